@@ -14,7 +14,10 @@ TESTS, labelled as tests; they prove nothing.
     only: the `cXX.spec.*` ops of the property drivers and the `sv.*` ops of lean/Driver/SpecVec.lean
     (reference interpreter `Spec.Script.Ref.verifyScript` with the signature hash of `Spec.Sighash`;
     clause-by-clause evaluation of `Spec.Bech32.Decodes`; signed-message recovery from `Spec.Keys`).
-    No `Model.*` function is involved.
+    No `Model.*` function computes an answer.  (One labelled guard: `Spec.Bech32.Decodes` is a
+    proposition with existential witnesses, so Driver/SpecVec.lean evaluates it by a transcription of
+    its clauses; the bech32 runners additionally require that transcription to coincide with
+    `Model.Bech32.decode`, which Props/C11 `decode_returns` proves equivalent to `Decodes`.)
 
 Usage
     ./specvec [quick|thorough]        one line per vector file: total / agree / disagree / skipped(reasons);
@@ -535,6 +538,28 @@ def _witver(op):
     raise ValueError('not a witness version opcode: %d' % op)
 
 
+def _cps(s):
+    return ','.join(str(ord(c)) for c in s)
+
+
+def _b32_crosscheck(res, queries, direct):
+    """`sv.b32.valid` evaluates the clauses of `Spec.Bech32.Decodes` by a transcription in Driver/SpecVec.lean.
+    As a guard on that transcription, the same (hrp, text) pairs are put to `c11.decode`
+    (Model.Bech32.decode), which Props/C11 `decode_returns` proves to return (v, p) exactly when
+    `Decodes h s v p` holds: the two evaluations of the Spec predicate must coincide.  (This is the only
+    place where a Model function is consulted; it never supplies an expected answer.)"""
+    proven = ask([L('c11.decode', _cps(h), _cps(t)) for h, t in queries], jobs=1)
+    bad = 0
+    for (h, t), d, m in zip(queries, direct, proven):
+        d2 = d[len('valid:'):] if d.startswith('valid:') else 'none'
+        if d2 != m:
+            bad += 1
+            res.bad(['transcription of Decodes vs proven decision procedure', h, t], m, d)
+    res.notes.append('clause-by-clause evaluation of Spec.Bech32.Decodes coincides with the proven decision '
+                     'procedure (Props/C11 decode_returns) on %d of %d (hrp, text) pairs'
+                     % (len(queries) - bad, len(queries)))
+
+
 def run_bech32_valid(tier):
     name = 'bech32_encode_decode.json'
     res = Result(name, 'Spec.Bech32.encodeAddr, Spec.Bech32.Decodes')
@@ -549,6 +574,12 @@ def run_bech32_valid(tier):
         # the other network's prefix must refuse it
         lines.append(L('sv.b32.valid', utf8hex('tb' if hrp == 'bc' else 'bc'), utf8hex(text)))
     outs = ask(lines)
+    qs, ds = [], []
+    for k, (spk, text) in enumerate(vs):
+        hrp = text[:text.rindex('1')].lower()
+        qs += [(hrp, text), ('tb' if hrp == 'bc' else 'bc', text)]
+        ds += [outs[3 * k + 1], outs[3 * k + 2]]
+    _b32_crosscheck(res, qs, ds)
     for k, (spk, text) in enumerate(vs):
         b = bytes.fromhex(spk)
         exp = dict(enc=text.lower(), dec='valid:%d:%s' % (_witver(b[0]), b[2:].hex()), other_hrp='invalid')
@@ -574,14 +605,16 @@ def run_bech32_invalid(tier):
     name = 'bech32_invalid.json'
     res = Result(name, 'Spec.Bech32.Decodes (each clause)')
     vs = load(name)
-    lines = []
+    lines, qs = [], []
     for text, why in vs:
         own = text[:text.rindex('1')].lower()
         if why == 'Invalid human-readable part':
             own = 'bc'
         for hrp in ('bc', 'tb', own):
             lines.append(L('sv.b32.valid', utf8hex(hrp), utf8hex(text)))
+            qs.append((hrp, text))
     outs = ask(lines)
+    _b32_crosscheck(res, qs, outs)
     for k, (text, why) in enumerate(vs):
         bc, tb, own = outs[3 * k:3 * k + 3]
         exp = dict(bc='invalid', tb='invalid', clause='invalid:' + BECH32_REASON.get(why, '?'))
@@ -608,6 +641,19 @@ def _block_cases(name):
     return out
 
 
+# checkblock_invalid.json: the rule each vector's comment names, and the change that must make the block pass
+# if that is really the only rule it breaks (`structure` = broken whatever the switches)
+CHECKBLOCK_INVALID_CLASS = {
+    'Genesis block with time set to two hours + 1 second behind': 'time',
+    'Genesis with one byte changed': 'pow',
+    'Empty vtx': 'structure',
+    'One tx, but not a coinbase': 'structure',
+    'More than one coinbase (different coinbases)': 'structure',
+    'Duplicate transaction': 'structure',
+    'Merkle root mismatch': 'merkle',
+}
+
+
 def run_checkblock(name, want_valid, tier):
     res = Result(name, 'Spec.BlockCheck.ValidBlock/ValidHeader (mainnet), Spec.powValid, Spec.Merkle.merkleRoot')
     cases = _block_cases(name)
@@ -618,13 +664,39 @@ def run_checkblock(name, want_valid, tier):
             lines.append(L('c16.spec.checkheader', 'mainnet', c['now'], int(c['pow']), show_header(c['obj'])))
         else:
             lines.append(L('c16.spec.checkblock', 'mainnet', c['now'], int(c['pow']), 1, show_block(c['obj'])))
-    outs = ask(lines)
-    for c, o in zip(cases, outs):
+    # second question for the invalid blocks: the same block with the named rule taken out of play
+    alt = []
+    for c in cases:
+        cls = CHECKBLOCK_INVALID_CLASS.get(c['vector'][0]) if not want_valid else None
+        c['cls'] = cls
+        if cls and not c['header']:
+            now, fpow, fmerkle = c['now'], int(c['pow']), 1
+            if cls == 'time':
+                now += 1
+            elif cls == 'pow':
+                fpow = 0
+            elif cls == 'merkle':
+                fmerkle = 0
+            else:
+                fpow, fmerkle = 0, 0
+            alt.append(L('c16.spec.checkblock', 'mainnet', now, fpow, fmerkle, show_block(c['obj'])))
+        else:
+            alt.append(None)
+    outs = ask(lines, jobs=1)
+    alts = iter(ask([a for a in alt if a], jobs=1))
+    for c, o, a in zip(cases, outs, alt):
         v = [c['vector'][0], c['vector'][1], c['vector'][2], c['vector'][3], c['vector'][4][:80] + '…']
         if want_valid:
             res.check(v, 'ok', o)
-        else:
+        elif a is None:
+            if c['cls'] is None:
+                res.notes.append('no classification for %r: only the verdict is compared' % c['vector'][0])
             res.check(v, 'err:validation', o)
+        else:
+            relaxed = next(alts)
+            exp = dict(verdict='err:validation', rule=c['cls'],
+                       without_that_rule='err:validation' if c['cls'] == 'structure' else 'ok')
+            res.check(v, exp, dict(verdict=o, rule=c['cls'], without_that_rule=relaxed))
     return res
 
 
